@@ -317,6 +317,9 @@ REGISTRY["C11"]["teq"].append({"engine": "sweep", "quick": {"n": 16, "seedoff": 
 REGISTRY["C01"]["teq"].append(seq({"only": "limited", "n": 10, "ops": 80, "seedoff": 101}, {"only": "limited", "seedoff": 101}))
 # round 8 (C01h): range queries with small limits over key sets holding expired, unswept entries are C01 business too
 REGISTRY["C01"]["teq"].append(seq({"seedoff": 201, "focus": 1, "n": 6, "ops": 60}, {"focus": 1, "seedoff": 201}))
+# round 10 (C11j): "never hidden while unexpired" holds for range queries with small limits too: expired, unswept
+# entries in front of live keys must not use up the limit
+REGISTRY["C11"]["teq"].append(seq({"seedoff": 1111, "focus": 1, "n": 6, "ops": 60}, {"focus": 1, "seedoff": 1111}))
 REGISTRY["C13"]["teq"].append({"engine": "conc", "quick": {"n": 150, "mode": "hist", "accounting": 1, "seedoff": 13}, "thorough": {"n": 4000, "mode": "hist", "accounting": 1, "seedoff": 13},
                                 "oracle": True, "mismatch_is_failure": False, "timeout": 3400,
                                 "nontrivial": lambda case, res: res == "lin=1", "distinct_key": lambda case, res: case,
@@ -397,6 +400,15 @@ REGISTRY["C17"]["teq"].append({"engine": "mutimg", "quick": {"seedoff": 1717}, "
                                 "nontrivial": lambda case, res: not res.startswith("err invalid-metadata") and not res.startswith("fresh") and not res.startswith("note"),
                                 "distinct_key": lambda case, res: res + case.split("mut=")[-1],
                                 "what": "the same mutated images opened by a build of /repo with integer-overflow checks on (what an application's debug build does: `-C overflow-checks=on`): arithmetic on values that a damaged file controls -- lengths, counts, sectors, journal generations at the top of their range -- must not panic; the outcome must equal Model.Recovery.open_image as in the release build"})
+REGISTRY["C17"]["teq"].append({"engine": "migrate", "quick": {"n": 4, "seedoff": 1715}, "thorough": {"tier": "thorough", "seedoff": 1715}, "oracle": True, "mismatch_is_failure": False, "timeout": 3400,
+                                "nontrivial": lambda case, res: "+" in case.split("src=")[-1],
+                                "distinct_key": lambda case, res: res + case.split("src=")[-1],
+                                "what": "the READ-ONLY open (what migrate() does to its source, any version): sources damaged by the C17 mutators, ambiguous tombstones, planted stale generations, pending-batch journals -- a third of those with a valid retirement marker in front of a journaled extent that reaches across it, so that the journal-virtualising scan jumps over a journaled extent -- are migrated by the real code in a child (panic, abort, hang = failure) and by Model.Migration.migrate_spec"})
+REGISTRY["C04"]["teq"].append({"engine": "mutimg", "quick": {"twice": 1, "bases": 2, "mutants": 12, "seedoff": 404}, "thorough": {"tier": "thorough", "twice": 1, "seedoff": 404}, "oracle": True,
+                                "mismatch_is_failure": False, "timeout": 3000,
+                                "nontrivial": lambda case, res: case.startswith("note reopen-twice"),
+                                "distinct_key": lambda case, res: case.split("mut=")[-1],
+                                "what": "idempotence on damaged and unusual files: the C17 mutants (among them a planted older generation that spans two blocks and carries a well-formed record image in its continuation block, above the newest generation of its key) are opened by the real code; every open that succeeds is followed by a second open of the file as the first one left it (TTL off) and both must report the same keys; the first open is also compared with Model.Recovery.open_image"})
 REGISTRY["C14"]["teq"].append({"engine": "sweepsched", "quick": {"n": 25, "seedoff": 1411}, "thorough": {"n": 600, "seedoff": 1411},
                                 "oracle": True, "mismatch_is_failure": True, "timeout": 3400,
                                 "nontrivial": lambda case, res: " X" in case and "removed=0" not in res, "distinct_key": lambda case, res: case,
